@@ -546,3 +546,24 @@ func (e *Exec) callStubByName(name string, recv Value, args []Value, c *ssa.Call
 }
 
 func (e *Exec) recordEvent(ev Iface) {}
+
+func init() {
+	stubs["github.com/cosmos/cosmos-sdk/types/query.Paginate"] = func(e *Exec, fn *ssa.Function, args []Value) Value {
+		ref := e.storeRefOf(args[0])
+		cb := args[2].(*Func)
+		it := e.makeIter(ref, nil).(Iface).Val.(Opaque).Data.(*iterData)
+		e.Notes["stub query.Paginate (PAGINATE): the callback is invoked exactly once for every entry under the given prefix store (complete traversal); page arithmetic (limit/offset/key/reverse/count_total) is SDK code and not decided"] = true
+		for _, en := range it.entries {
+			_, rest := e.keyHasPrefix(en.Key, ref.Prefix)
+			k := e.itemsToBytes(rest)
+			v := e.copyBytes(en.Val)
+			r := e.callFn(cb.Fn, []Value{k, v}, cb.Bindings, nil)
+			if !isNilIface(r) {
+				return Tuple{Ptr{}, r}
+			}
+		}
+		prT := fn.Signature.Results().At(0).Type().(*types.Pointer).Elem()
+		o := e.newObj(prT, e.zero(prT))
+		return Tuple{Ptr{Obj: o}, nilErr()}
+	}
+}
